@@ -445,6 +445,9 @@ func (x *Exec) applyContract(fr *Frame, st *State, c *Contract, fn *ssa.Function
 	if c.Trusted && res != nil {
 		x.assumeZeroOffsets(res)
 	}
+	if c.ZeroOffsets && res != nil {
+		x.zeroOffsetsStructural(res) // proved on the callee (obligation zero-offset at its exit)
+	}
 	post := &SpecEnv{x: x, vars: map[string]*Value{}, cur: st, old: pre, pkg: pkg, posHint: hint}
 	for k, v := range vars {
 		post.vars[k] = v
@@ -678,6 +681,27 @@ func (x *Exec) checkEnsures(fr *Frame, st *State, vals []*Value, pos token.Pos) 
 		}
 		t := x.evalClause(fr, e, st, fr.entry, extra)
 		x.oblige(fr, st, "ensures", "", e.Label, t, pos, e.Src)
+	}
+	if c.ZeroOffsets {
+		var offs []*Term
+		var walk func(v *Value)
+		walk = func(v *Value) {
+			if v == nil {
+				return
+			}
+			switch v.K {
+			case KSlice:
+				if v.Off != nil {
+					offs = append(offs, Eq(v.Off, IntLit(0)))
+				}
+			case KStruct, KTuple:
+				for _, f := range v.Fields {
+					walk(f)
+				}
+			}
+		}
+		walk(res)
+		x.oblige(fr, st, "ensures", "", "zero-offset", And(offs...), pos, "zerooffsets")
 	}
 	// goroutine bodies: Done() is called exactly once on each WaitGroup named by `signals`
 	for _, sg := range c.Signals {
